@@ -33,6 +33,8 @@ PROGRAMS = [
     ('encoding', '%s 항. %s 항. %s 항.' % (P65, big(216, 256), P66)),
     ('fractions', '형.. 흡... 형... 흣... 형. 형 흡... 하앙....'),
     ('two-stacks', '%s 흑.... 형.. 항... 흑... 항. 항..' % P65),
+    ('long-straight', ' '.join(['형.'] * 11 + [P65, '항.', '형..'])),
+    ('enc-after-stderr', '%s 항.. %s 항. %s 항. %s 항.' % (P65, P66, big(216, 256), P67)),
 ]
 
 D15 = ['n', 'p', 'r', 's', 'b', 'b 0', 'b 1', 'b MID', 'b LAST', 'b LEN', 'b LEN1', 'b x', 'h', 'zzz', '', 'exit']
